@@ -114,7 +114,14 @@ def direct_greens_function(
     try:
         from mumps import Context as MUMPSContext
     except ImportError:
-        solve = factorized(sparse.csc_matrix(mat))
+        try:
+            solve = factorized(sparse.csc_matrix(mat))
+        except RuntimeError as error:
+            msg = (
+                "E - H is singular on the complement of the supplied kernel vectors: "
+                "they do not span the full eigenspace of E."
+            )
+            raise ValueError(msg) from error
     else:
         ctx = MUMPSContext()
         # MUMPS does not support Hermitian matrices, so we use the symmetric only with real.
